@@ -737,18 +737,6 @@ func (p *Packer) checkSymlinkDestination(dst, name, path string) error {
 		return p == root || strings.HasPrefix(p, prefix)
 	}
 
-	// A target that reads as being outside of dst can only have been admitted
-	// through AllowSymlinkTarget; those are exempt here as well.
-	var textual string
-	if filepath.IsAbs(target) {
-		textual = filepath.Clean(target)
-	} else {
-		textual = filepath.Join(filepath.Dir(filepath.Join(absRoot, name)), target)
-	}
-	if !within(absRoot, textual) {
-		return nil
-	}
-
 	realRoot, err := filepath.EvalSymlinks(absRoot)
 	if err != nil {
 		realRoot = absRoot
@@ -766,6 +754,25 @@ func (p *Packer) checkSymlinkDestination(dst, name, path string) error {
 	if !ok || within(realRoot, resolved) {
 		// A loop leads nowhere, so it cannot lead outside either.
 		return nil
+	}
+
+	// A target that reads as being outside of dst can only have been admitted
+	// through AllowSymlinkTarget. What was allowed is the place the target
+	// reads as: the link is exempt as long as that is where it leads, and not
+	// somewhere else by way of a link inside dst.
+	var textual string
+	if filepath.IsAbs(target) {
+		textual = filepath.Clean(target)
+	} else {
+		textual = filepath.Join(filepath.Dir(filepath.Join(absRoot, name)), target)
+	}
+	if !within(absRoot, textual) {
+		if !filepath.IsAbs(target) {
+			textual = filepath.Join(realDir, target)
+		}
+		if reads, ok := followSymlinks(string(filepath.Separator), textual); !ok || reads == resolved {
+			return nil
+		}
 	}
 
 	// Do not leave the offending link behind.
